@@ -298,6 +298,11 @@ def scratch(name):
         import atexit
         atexit.register(_cleanup)
         _registered = True
+        # directories left behind by runs that were killed (OOM, timeout): their process is gone
+        wd = os.path.join(BUILD, 'work')
+        for n in (os.listdir(wd) if os.path.isdir(wd) else []):
+            if n.isdigit() and not os.path.exists('/proc/' + n):
+                shutil.rmtree(os.path.join(wd, n), ignore_errors=True)
     d = os.path.join(BUILD, 'work', str(os.getpid()), name)
     shutil.rmtree(d, ignore_errors=True)
     os.makedirs(d, exist_ok=True)
